@@ -314,6 +314,12 @@ def main():
     for S_ in ([2] if not ck.thorough else [2, 3]):
         with ck.section(f'collected_rollout@S={S_}'):
             sec_collected_rollout(ck, S_)
+    # `with several parallel environments each environment's stream is estimated on its own`, for the buffer the real vectorised iteration() hands to
+    # training: every lane (returns and advantages included) equals the single-environment collection from that environment's own state and key -- the
+    # lane obligations of C12 with more steps than environments, discharged here as part of this clause
+    from props import C12
+    with ck.section("iteration_lanes@E=2,S=3"):
+        C12.check_onpolicy_lanes(ck, "discrete", E=2, S_=3)
     ck.finish("RolloutBuffer.compute_returns_and_advantages is traced for each rollout length T and interpreted over z3 reals with rewards, values, "
               "done flags, bootstrap value, gamma and lambda symbolic; the outputs are compared with the GAE recursion of the statement written "
               "independently. Corollaries (lambda=1, lambda=0, cut at done as a 2-safety query, per-environment independence of the vmapped call, "
